@@ -182,6 +182,9 @@ def body(ctx, case, want=("C01", "C05", "C06")):
                 ac = sum((st["duty"] - content_below(ctx, st, x, True) for st in sts if not st["hot"]), ctx.const(0.0))
                 ah = sum((st["duty"] - content_below(ctx, st, x, True) for st in sts if st["hot"]), ctx.const(0.0))
                 return Qh - (ac - ah)
+            # recorded finding F-C06-balanced: the residual is zero at EVERY breakpoint (balanced problem, Qh = Qc = 0)
+            # (to within the code's own 1e-6 zero tolerance)
+            ctx.region("all_zero", h.conj(h.close(residual(b), 0.0, 1e-6) for b in bs_star))
             if th is None or tc is None:
                 ctx.tag("pinch absent")
                 ctx.require(h.conj(h.neg(h.close(residual(b), 0.0, EQ)) for b in bs_star), "C06: pinch absent only when the residual has no zero at any shifted temperature")
@@ -233,7 +236,8 @@ Q_TEMPLATES = [
     [(100, 100, 5), (40, 120, 5)],
     [(200, 100, 0), (100, 200, 0)],
     [(120, 40, 5), (30, 110, 5), (30, 110, 5)],
-    [(180, 80, 5), (70.00001, 170, 5)],
+    [(180, 80, 5), (70.00002, 170, 5)],
+    [(180, 80, 5), (70.000004, 170, 5)],
     [(90, 30, 2.5), (95, 95, 2.5), (20, 80, 7.5)],
 ]
 
@@ -244,6 +248,7 @@ def cases_T(tier, seed, scale_opts=("shifted", "real")):
         out.append({"family": "T", "scale": "shifted", "streams": [{"cp": 2}], "near_tie": "region"})
         out.append({"family": "T", "scale": "real", "streams": [{"cp": 2}], "near_tie": "region"})
         out.append({"family": "T", "scale": "shifted", "streams": [{"cp": 2, "latent": 1}, {"cp": 3}], "near_tie": "assume_none"})
+        out.append({"family": "T", "scale": "shifted", "streams": [{"cp": 2, "latent": -1}, {"cp": 3}], "near_tie": "assume_none"})
         out.append({"family": "T", "scale": "shifted", "streams": [{"cp": 2}, {"cp": 3}], "near_tie": "assume_none"})
         out.append({"family": "T", "scale": "real", "streams": [{"cp": 2}, {"cp": 3}], "near_tie": "assume_none"})
         out.append({"family": "T", "scale": "both", "streams": [{"cp": 2, "dt": 5}, {"cp": 3, "dt": 5}], "near_tie": "assume_none"})
@@ -269,9 +274,8 @@ def cases_Q(tier, seed):
     for tp in tpls:
         out.append({"family": "Q", "scale": "both", "near_tie": "region",
                     "streams": [{"ts": a, "tt": b, "dt": c} for a, b, c in tp]})
-    if tier != "quick":
-        out.append({"family": "Q", "scale": "both", "near_tie": "region",
-                    "streams": [{"ts": 100, "tt": 100, "dt": 5, "latent": -1}, {"ts": 40, "tt": 120, "dt": 5}]})
+    out.append({"family": "Q", "scale": "both", "near_tie": "region",
+                "streams": [{"ts": 100, "tt": 100, "dt": 5, "latent": -1}, {"ts": 40, "tt": 120, "dt": 5}]})
     return out
 
 
